@@ -35,5 +35,7 @@ def run(chk, ix, tier):
     rules_config.check_readers_by_evaluation(chk, ix)
     rules_config.check_user_define_concrete(chk, ix, tier)
     rules_config.check_documented_defaults(chk, ix)
-    for r, n in (("Z1", 1), ("Z2", 6), ("Z4", 16), ("Z5", 4), ("Z6", 3), ("Z7", 2), ("Z9", 14), ("Z8", 6)):
+    rules_config.check_userdata_before_consumers(chk, ix)
+    rules_config.check_parser_is_fresh(chk, ix)
+    for r, n in (("Z1", 1), ("Z2", 6), ("Z4", 16), ("Z5", 4), ("Z6", 3), ("Z7", 2), ("Z9", 14), ("Z8", 6), ("Z10", 1), ("Z11", 1)):
         chk.require_instances(r, n)
